@@ -100,7 +100,7 @@ impl Property for C07 {
         "C07"
     }
     fn cases(&self, tier: Tier) -> u32 {
-        tier.pick(60_000, 800_000)
+        tier.pick(400_000, 4_000_000)
     }
     fn hang_is_violation(&self) -> bool {
         true
